@@ -157,7 +157,7 @@ def fn_spec(name, f, cuts=(), calls=True, scalar=True, rename=None):
     return Spec(name, [(n, tuple(s)) for n, s in ins], build, cuts=cuts, calls=calls, scalar=scalar)
 
 
-def lazy_fn_spec(name, thunk, cuts=(), calls=True, scalar=True):
+def lazy_fn_spec(name, thunk, cuts=(), calls=True, scalar=True, only=(), selects=False):
     """like fn_spec, but the casadi.Function is (re)built by `thunk` INSIDE the extraction, so that the
     SERIES calls it makes stay calls (patched tables are active while `build` runs)"""
     f0 = thunk()
@@ -166,7 +166,7 @@ def lazy_fn_spec(name, thunk, cuts=(), calls=True, scalar=True):
     def build(*args):
         f = thunk()
         return list(zip(outs, f.call(list(args))))
-    return Spec(name, ins, build, cuts=cuts, calls=calls, scalar=scalar)
+    return Spec(name, ins, build, cuts=cuts, calls=calls, scalar=scalar, only=only, selects=selects)
 
 
 def rdd2_alloc_specs():
@@ -272,6 +272,53 @@ def util_specs():
     return S
 
 
+def qr_abstracted(name, maker, k, cuts=(), selects=False, only=()):
+    """Variant of a function whose body calls ca.qr (through util.sqrt_correct): the factorisation is replaced by two
+    extra inputs qrQ (k x k) and qrR (k x k, upper triangular) and the matrix handed to ca.qr becomes an extra output
+    `qr_arg`, so that theorems can be stated under the QR contract  qrQ^T qrQ = 1,  qrQ qrR = qr_arg.
+    The REAL body runs; only ca.qr is swapped while it is built."""
+    import core
+    def thunk():
+        Qs = ca.SX.sym("qrQ", k, k)
+        Rs_ = ca.SX.sym("qrR", ca.Sparsity.upper(k))
+        cap = []
+        real_qr = ca.qr
+        def fake_qr(A):
+            cap.append(ca.SX(A))
+            return Qs, Rs_
+        ca.qr = fake_qr
+        try:
+            with core.patched_function():
+                f = maker()
+                assert len(cap) == 1 and cap[0].shape == (k, k), "expected exactly one %dx%d ca.qr call" % (k, k)
+                g = ca.Function(f.name() + "_qr", f._ins + [Qs, Rs_], f._outs + [cap[0]],
+                                f._in_names + ["qrQ", "qrR"], f._out_names + ["qr_arg"])
+        finally:
+            ca.qr = real_qr
+        return g
+    return lazy_fn_spec(name, thunk, cuts=cuts, selects=selects, only=only)
+
+
+def est_specs():
+    """MRP attitude estimator steps and the packaged simulator's sensor/truth models (C11, C12)"""
+    import cyecca.estimate.attitude.algorithms.mrp as mrp
+    import cyecca.estimate.attitude.algorithms.sim as sim
+    S = []
+    S.append(lazy_fn_spec("mrp.initialize", lambda: mrp.initialize(), cuts=("error_code",), selects=True))
+    S.append(lazy_fn_spec("mrp.predict", lambda: mrp.predict(), only=("x1",), selects=True))
+    S.append(lazy_fn_spec("mrp.correct_mag", lambda: mrp.correct_mag(), cuts=("error_code",), selects=True))
+    S.append(lazy_fn_spec("mrp.correct_accel", lambda: mrp.correct_accel(), cuts=("error_code",), selects=True))
+    S.append(qr_abstracted("mrp.correct_mag_qr", lambda: mrp.correct_mag(), 7, only=("W_mag", "qr_arg", "error_code"), cuts=("error_code",), selects=True))
+    S.append(qr_abstracted("mrp.correct_accel_qr", lambda: mrp.correct_accel(), 8, only=("W_accel", "qr_arg", "error_code"), cuts=("error_code",), selects=True))
+    S.append(lazy_fn_spec("mrp.get_state", lambda: mrp.get_state()))
+    S.append(lazy_fn_spec("sim.simulate", lambda: sim.simulate(), selects=True))
+    S.append(lazy_fn_spec("sim.measure_gyro", lambda: sim.measure_gyro()))
+    S.append(lazy_fn_spec("sim.measure_mag", lambda: sim.measure_mag()))
+    S.append(lazy_fn_spec("sim.measure_accel", lambda: sim.measure_accel()))
+    S.append(lazy_fn_spec("sim.rotation_error", lambda: sim.rotation_error()))
+    return S
+
+
 MODULES = {
     "Series": (series_specs, ()),
     "SO2": (so2_specs, ("Series",)),
@@ -288,4 +335,5 @@ MODULES = {
     "Ctrl": (ctrl_specs, ("Series",)),
     "Ref": (ref_specs, ("Series",)),
     "Util": (util_specs, ("Series",)),
+    "Est": (est_specs, ("Series",)),
 }
